@@ -33,6 +33,8 @@ fn bcase_json(b: &BCase) -> String {
     }
 }
 
+thread_local! { pub static EXEC_OOD: std::cell::Cell<bool> = std::cell::Cell::new(false); }
+
 /// Run one built-in case: reference first (OOD -> skipped), then the engine; compare
 /// answers; optionally check the layout of every list in the raw answers.
 pub fn run_bcase(b: &BCase, check_layout: bool, with_output: bool, out: &mut Outcome) {
@@ -41,7 +43,21 @@ pub fn run_bcase(b: &BCase, check_layout: bool, with_output: bool, out: &mut Out
     let c = &b.case;
     let refr = match rinterp::solve(&c.prog, &c.qname, &c.qargs, 20_000, MAX_ANSWERS) {
         Ok(r) => r,
-        Err(e) => { out.evals = 0; out.verdict = Verdict::Skipped(if e.starts_with("budget") { "reference budget exceeded" } else { "outside the statements' domain" }); out.count("ood", 1); return; }
+        Err(e) => {
+            out.evals = 0; out.verdict = Verdict::Skipped(if e.starts_with("budget") { "reference budget exceeded" } else { "outside the statements' domain" }); out.count("ood", 1);
+            // The engine is still run on the out-of-domain case (it may answer, fail or panic - nothing
+            // is demanded of it), so that whatever such a call leaves behind in the process meets the
+            // in-domain cases that follow on this thread.
+            // (only for the arithmetic properties: an out-of-domain list built-in - an open list, say - can
+            // recurse without end and abort the process, which no harness can turn into "ignored")
+            if EXEC_OOD.with(|c| c.get()) && !e.starts_with("budget") && b.text.is_none() {
+                let kb = program_to_kb(&c.prog);
+                let _ = guarded(|| run_engine_raw(c, &kb, 3));
+                let _ = take_output();
+                out.count("out_of_domain_cases_executed_and_ignored", 1);
+            }
+            return;
+        }
     };
     let sig = |kind: &str| format!("{}|{}", kind, match &b.text { Some(t) => t.join(" "), None => show_program(&c.prog) });
     let wit = |kind: &str, d: &str| json::obj(&[("kind", json::esc(kind)), ("case", bcase_json(b)), ("detail", json::esc(d))]);
@@ -199,7 +215,9 @@ impl Workload for C12 {
     fn run(&mut self, idx: u64) -> Outcome {
         let b = self.pick(idx);
         let mut out = Outcome::new(hash_str(&bcase_json(&b)));
+        EXEC_OOD.with(|c| c.set(true));
         run_bcase(&b, false, false, &mut out);
+        EXEC_OOD.with(|c| c.set(false));
         out
     }
 }
@@ -282,7 +300,9 @@ impl Workload for C13 {
     fn run(&mut self, idx: u64) -> Outcome {
         let b = self.pick(idx);
         let mut out = Outcome::new(hash_str(&bcase_json(&b)));
+        EXEC_OOD.with(|c| c.set(true));
         run_bcase(&b, false, false, &mut out);
+        EXEC_OOD.with(|c| c.set(false));
         out
     }
 }
